@@ -9,8 +9,10 @@ package main
 // the repository refuses on purpose and the property says nothing.
 //
 // The large container is taken alone (lists [i] [C] [s] [m], maps {ii} {Iw}
-// {wb} {si}) and in every kind of position (struct member, list element, map
-// value, tuple member, carried by a dynamic value: m<[i]>, m<[m]>). Element j is a deterministic function of j (an odd
+// {wb} {si}; lists of zero-width elements [()] [v], also followed by four
+// bytes: ([()]i)) and in every kind of position (struct member, list element,
+// map value, tuple member, carried by a dynamic value: m<[i]>, m<[m]>).
+// Element j is a deterministic function of j (an odd
 // multiplier modulo the width: keys are distinct by construction). The
 // oracle is the usual one; the entries of a map may be written in any order,
 // which for thousands of entries is decided by comparing the multiset of
@@ -46,6 +48,10 @@ var boundarySpecs = []boundarySpec{
 	{"[m]", nil, ""},
 	{"m", []int{0}, "[i]"},
 	{"m", []int{0}, "[m]"},
+	// lists of elements that occupy no byte (see zerowidth.go): the whole
+	// encoding of the list is its count
+	{"[()]", nil, ""}, {"[v]", nil, ""},
+	{"([()]i)", []int{0}, ""},
 }
 
 var boundaryCounts = []int{sizeCap - 1, sizeCap}
@@ -68,6 +74,10 @@ func nth(t *refmodel.Type, j int) *refmodel.Datum {
 		return &refmodel.Datum{T: t, S: fmt.Sprintf("k%04d", j)}
 	case refmodel.Value:
 		return &refmodel.Datum{T: t, Dyn: nth(refmodel.Atom('i'), j)}
+	}
+	if isZeroWidth(t) {
+		// a zero-width type has a single value
+		return enum.Dist(t)
 	}
 	w := t.Kind.Width()
 	if w <= 0 {
@@ -244,7 +254,7 @@ func reportBoundary(bc boundaryCase, ep entryPoint, dl delivery, clause string) 
 	kind := containerName(min.Child(path).T.Kind)
 	fp := fmt.Sprintf("codec/%s/%s/count/%s-%s/n=%d", ep.name, mclause, pos, kind, hi)
 	if len(ep.dls) > 1 {
-		if c, _ := ep.eval(min, delivery{enum.EOFSeparate, 0}); c == "" {
+		if c, _ := ep.eval(min, delivery{mode: enum.EOFSeparate}); c == "" {
 			fp += "/" + dl.String()
 		}
 	}
